@@ -16,6 +16,24 @@ from elfgen import (ElfObject, SHT_PROGBITS, SHT_NOBITS, SHF_ALLOC, SHF_WRITE, S
 R_X86_64_64, R_X86_64_COPY, R_X86_64_GLOB_DAT, R_X86_64_RELATIVE = 1, 5, 6, 8
 
 
+# ------------------------------------------------------------------------------- robust wild link
+EXTERNAL_KILLS = [0]
+
+
+def server_link(argv, cwd, tries=3):
+    """wildrun.server_link, repeated when the server process was killed from outside (exit by
+    SIGTERM / SIGKILL: wild never sends itself those; on this shared machine other jobs' fault
+    injectors occasionally hit a recycled pid). Crashes of wild itself (SIGSEGV, SIGABRT, panic)
+    are returned as they are. EXTERNAL_KILLS[0] counts the repeats in this process."""
+    import wildrun
+    for _ in range(tries):
+        rc, msg = wildrun.server_link(argv, cwd=cwd)
+        if rc not in (-15, -9):
+            break
+        EXTERNAL_KILLS[0] += 1
+    return rc, msg
+
+
 # ------------------------------------------------------------------------------------ ar writer
 def _hdr(name, size, mode="644", date="0", uid="0", gid="0"):
     return (name.ljust(16) + date.ljust(12) + uid.ljust(6) + gid.ljust(6) + mode.ljust(8)
